@@ -59,7 +59,9 @@ def build_corpus(tier, rng):
                     v.metas = mixed
                     vs.append(v)
                 for j in range(0, len(vs), 6):
-                    items.append(("systematic", Item("E", vs[j:j + 6], metas=[EM("sall", sty)] if sty else [])))
+                    # a prefix belongs to the PRINTED name only: get_serializations (what EnumString accepts) never carries it
+                    pf = [EM("prefix", "pet/")] if (j // 6 + n) % 3 == 0 else []
+                    items.append(("systematic", Item("E", vs[j:j + 6], metas=([EM("sall", sty)] if sty else []) + pf)))
     for _ in range(300 if thorough else 40):
         it = G.string_enum(rng, nvariants=rng.randint(1, 8), allow_default=False, allow_dw=False, custom_err=False)
         for v in it.variants:
